@@ -23,6 +23,7 @@ import (
 	"sort"
 	"strings"
 
+	ht "github.com/traefik/yaegi/interp/e2e_hosttypes"
 	"github.com/traefik/yaegi/stdlib"
 )
 
@@ -150,6 +151,85 @@ func vhHost(rec *[]int, a, b int) map[string]interface{} {
 			}
 			out(sink.total)
 		},
+		// --- values of every shape crossing the boundary (property C07): each function
+		// uses what it receives and hands back results computed natively
+		"Swap":    func(p ht.Pair) ht.Pair { out(p.A); return ht.Pair{A: p.B, B: p.A} },
+		"Scale":   func(p *ht.Pair, k int) { p.A *= k; p.B *= k },
+		"NewPair": func(x, y int) *ht.Pair { return &ht.Pair{A: x, B: y} },
+		"SumGrid": func(g ht.Grid) int { return g[0][0] + 10*g[0][1] + 100*g[1][0] + 1000*g[1][1] },
+		"FillGrid": func(g *ht.Grid, v int) {
+			for r := 0; r < 2; r++ {
+				for c := 0; c < 2; c++ {
+					g[r][c] = v + r*2 + c
+				}
+			}
+		},
+		"SumSlice": func(xs []int) int {
+			t := len(xs) * 1000
+			for _, x := range xs {
+				t += x
+			}
+			return t
+		},
+		"Double": func(xs []int) {
+			for k := range xs {
+				xs[k] *= 2
+			}
+		},
+		"Grow": func(xs []int, v int) []int { return append(xs, v, v+1) },
+		"SumMap": func(m map[string]int) int {
+			t := len(m) * 1000
+			for _, k := range []string{"a", "b", "c"} {
+				t += m[k]
+			}
+			return t
+		},
+		"SetKey": func(m map[string]int, k string, v int) { m[k] = v },
+		"Var": func(base int, xs ...int) int {
+			t := base*100 + len(xs)
+			for _, x := range xs {
+				t += x
+			}
+			return t
+		},
+		"DivMod": func(x, y int) (int, int, error) {
+			if y == 0 {
+				return 0, 0, errors.New("division by zero")
+			}
+			return x / y, x % y, nil
+		},
+		"Apply":     func(f func(int) int, x int) int { return f(x) + f(x+1) },
+		"Compose":   func(f, g func(int) int) func(int) int { return func(x int) int { return g(f(x)) } },
+		"MakeAdder": func(n int) func(int) int { return func(x int) int { n++; return x + n } },
+		"Kinds": func(bl bool, i8 int8, u16 uint16, str string, r rune) (int8, uint16, string) {
+			if bl {
+				i8++
+			}
+			return i8 + 1, u16 * 2, str + string(r)
+		},
+		"SumPairs": func(ps []ht.Pair) ht.Pair {
+			var t ht.Pair
+			for _, p := range ps {
+				t.A += p.A
+				t.B += p.B
+			}
+			return t
+		},
+		"Each": func(m map[string]ht.Pair, f func(string, ht.Pair)) {
+			for _, k := range []string{"x", "y"} {
+				if p, ok := m[k]; ok {
+					f(k, p)
+				}
+			}
+		},
+		"Rename": func(n ht.Named) ht.Named { return n*2 + 1 },
+		"Visit": func(f func(ht.Pair) (int, error)) int {
+			v, err := f(ht.Pair{A: 3, B: 4})
+			if err != nil {
+				return -len(err.Error())
+			}
+			return v
+		},
 		"Write": func(w io.Writer) {
 			n, err := w.Write([]byte{1, 2, 3})
 			out(n)
@@ -183,10 +263,13 @@ func vh_E2E() {
 	for k, fn := range vhHost(&got, a, b) {
 		hostTab[k] = reflect.ValueOf(fn)
 	}
+	hostTab["Pair"] = reflect.ValueOf((*ht.Pair)(nil))
+	hostTab["Grid"] = reflect.ValueOf((*ht.Grid)(nil))
+	hostTab["Named"] = reflect.ValueOf((*ht.Named)(nil))
 	i.binPkg["host"] = hostTab
 	i.pkgNames["host"] = "host"
 	// the wrappers compiled code needs to call interpreted methods (fmt.Stringer, ...): those of the default table
-	for _, pk := range []string{"fmt", "io", "sort"} {
+	for _, pk := range []string{"errors", "fmt", "io", "sort"} {
 		tab := map[string]reflect.Value{}
 		for k, v := range stdlib.Symbols[pk+"/"+pk] {
 			tab[k] = v
@@ -216,6 +299,39 @@ func vh_E2E() {
 		vhTwinBind[name](vhHost(&want, a, b))
 		vhTwinMain[name]()
 	}()
+	// what the program exports, used natively on both sides: functions obtained from the
+	// interpreter (Symbols) called with the inputs, package variables read after the run
+	if ex := vhTwinExports[name]; len(ex) > 0 && err == nil && !twinPanicked {
+		syms := i.Symbols("main")["main"]
+		var keys []string
+		for k := range ex {
+			keys = append(keys, k)
+		}
+		sort.Strings(keys)
+		for _, k := range keys {
+			sv, found := syms[k]
+			if !found {
+				got = append(got, -424242)
+			}
+			switch tf := ex[k].(type) {
+			case func(int) int:
+				want = append(want, tf(a), tf(b))
+				if f, ok := sv.Interface().(func(int) int); found && ok {
+					got = append(got, f(a), f(b))
+				}
+			case func(int, int) int:
+				want = append(want, tf(a, b), tf(b, 1))
+				if f, ok := sv.Interface().(func(int, int) int); found && ok {
+					got = append(got, f(a, b), f(b, 1))
+				}
+			case *int:
+				want = append(want, *tf)
+				if found && sv.Kind() == reflect.Int {
+					got = append(got, int(sv.Int()))
+				}
+			}
+		}
+	}
 	// a program recorded as a known finding (known_findings.json) is reported as such: the
 	// finding is the program, any other program that deviates is a new violation
 	vKnown("C01.e2e."+name, true)
@@ -224,6 +340,16 @@ func vh_E2E() {
 	for k := 0; same && k < len(want); k++ {
 		if got[k] != want[k] {
 			same = false
+		}
+	}
+	if !same {
+		for k := 0; k < len(got) && k < len(want); k++ {
+			if got[k] != want[k] {
+				vDebug("first difference at", k)
+				vDebug("got", got[k])
+				vDebug("want", want[k])
+				break
+			}
 		}
 	}
 	vKnown("C01.e2e."+name, true)
@@ -240,9 +366,12 @@ func vhEvalHost(buf *bytes.Buffer, rec *[]int, a, b int) *Interpreter {
 	for k, fn := range vhHost(rec, a, b) {
 		hostTab[k] = reflect.ValueOf(fn)
 	}
+	hostTab["Pair"] = reflect.ValueOf((*ht.Pair)(nil))
+	hostTab["Grid"] = reflect.ValueOf((*ht.Grid)(nil))
+	hostTab["Named"] = reflect.ValueOf((*ht.Named)(nil))
 	i.binPkg["host"] = hostTab
 	i.pkgNames["host"] = "host"
-	for _, pk := range []string{"fmt", "io", "sort"} {
+	for _, pk := range []string{"errors", "fmt", "io", "sort"} {
 		tab := map[string]reflect.Value{}
 		for k, v := range stdlib.Symbols[pk+"/"+pk] {
 			tab[k] = v
